@@ -68,6 +68,7 @@ def classify_with(vocab, tags):
 
 class Classification:
     target = "contracts.encoding:classify_with"
+    pure = True      # callers: the result is a function of (vocabulary, tag list)
     types = {"vocab": "List[Obj:soundevent.data.tags.Tag]", "tags": "List[Obj:soundevent.data.tags.Tag]"}
     result = "Optional[int]"
 
@@ -109,6 +110,7 @@ def prediction_with(vocab, tags):
 
 class Prediction:
     target = "contracts.encoding:prediction_with"
+    pure = True
     types = {"vocab": "List[Obj:soundevent.data.tags.Tag]", "tags": "List[Obj:soundevent.data.predicted_tags.PredictedTag]"}
     result = "NDArray"
 
